@@ -196,10 +196,23 @@ def run(ctx):
             combos = rng.sample(combos, 160)
         with open(os.path.join(tmp, "root", "sub", "f.txt"), "w") as fil:
             fil.write("x")
-        for attr, ov, via_os, site in combos:
+        EXC = [RuntimeError, NotImplementedError, PermissionError,
+               TimeoutError, KeyError, ArithmeticError, FileNotFoundError,
+               AssertionError, StopIteration, LookupError]
+        plan = [combo + (rng.choice(EXC + [RuntimeError]),)
+                for combo in combos]
+        # every class at every site once with debug plainly off and on
+        for cls in EXC:
+            for site in ("before", "endpoint", "status", "after"):
+                plan.append((False, None, False, site, cls))
+                if not ctx.quick or cls is not RuntimeError:
+                    plan.append((None, "On", False, site, cls))
+        for attr, ov, via_os, site, exc_cls in plan:
             eff = spec_effective(bool(attr), ov)
             method = rng.choice(methods)
 
+            # the failure may be of any class (also ones that read like a
+            # status: NotImplementedError, PermissionError, TimeoutError)
             def build():
                 # on a plain server the process environment says nothing
                 # about debug: a stray value there (left by a shell or
@@ -214,22 +227,22 @@ def run(ctx):
 
                 def module_internal_handler_fn(req):
                     if site == "endpoint":
-                        raise RuntimeError(TOKEN)
+                        raise exc_cls(TOKEN)
                     if site == "status":
                         abort(404)
                     return "fine"
                 app.set_route("/boom", module_internal_handler_fn, 511)
                 if site == "before":
                     def hook_b(req):
-                        raise RuntimeError(TOKEN)
+                        raise exc_cls(TOKEN)
                     app.add_before_response(hook_b)
                 if site == "after":
                     def hook_a(req, res):
-                        raise RuntimeError(TOKEN)
+                        raise exc_cls(TOKEN)
                     app.add_after_response(hook_a)
                 if site == "status":
                     def nf(req, *a, **k):
-                        raise RuntimeError(TOKEN)
+                        raise exc_cls(TOKEN)
                     app.set_http_state(404, nf, 511)
                 return app
 
@@ -267,7 +280,7 @@ def run(ctx):
             body = ans.body or b""
             detail = {"attr": attr, "override": ov, "via_os_environ": via_os,
                       "site": site, "method": method, "effective": eff,
-                      "status": ans.status}
+                      "raises": exc_cls.__name__, "status": ans.status}
             ctx.case(("mon", attr, ov, via_os, site, method), True, detail)
             ctx.count("site=%s/%s" % (site, "on" if eff else "off"))
             if ans.raised is not None:
@@ -275,7 +288,7 @@ def run(ctx):
                     detail, exc=repr(ans.raised)))
                 continue
             leaks = [w for w in (TOKEN.encode(), b"Traceback",
-                                 b"RuntimeError",
+                                 b"RuntimeError", exc_cls.__name__.encode(),
                                  b"module_internal_handler_fn", b"hook_b",
                                  b"hook_a", b"wsgi.input", b"SERVER_SOFTWARE",
                                  b"checks.c20") if w in body]
